@@ -106,3 +106,42 @@ package cesium
 //@   modifies w, excludeUnauthorized
 //@   loop 0 modifies excludeUnauthorized, w
 //@   loop 1 modifies excludeUnauthorized, w
+
+//@ # ---- opening a stream writer (C05: a refused open fails cleanly): everything the clean-up on a
+//@ # failed open closes is a writer that was opened. Verified from the registration of that clean-up
+//@ # on, for an arbitrary validated configuration.
+//@ trusted func (db *DB) openDomainIdxWriter(idxKey ChannelKey, cfg WriterConfig) (r *idxWriter, err error)
+//@   ensures (err == nil) == (r != nil)
+//@   ensures err == nil ==> r.internal != nil && __fresh(r)
+//@   modifies nothing
+//@ trusted func (w *idxWriter) Close() (u ControlUpdate, err error)
+//@   requires w != nil
+//@   modifies nothing
+//@ trusted func (db *DB) updateControlDigests(ctx context.Context, u ControlUpdate) (err error)
+//@   modifies nothing
+//@ func (db *DB) newStreamWriter(ctx context.Context, cfgs ...WriterConfig) (w *streamWriter, err error)
+//@   pragma from defer func() {
+//@   pragma opaque_func_values
+//@   from_requires err == nil && domainWriters != nil && virtualWriters == nil && cfg.AutoIndex != nil && len(domainWriters) == 0
+//@   from_requires len(cfg.Authorities) == 1 || len(cfg.Authorities) == len(cfg.Channels)
+//@   from_requires *cfg.AutoIndex ==> keyToIdx != nil
+//@   from_requires db.relay != nil
+//@   modifies *
+//@   # clean-up loops (the deferred closure): they only read the maps
+//@   loop 0 invariant dwOpened(domainWriters, *cfg.AutoIndex) && vwOpened(virtualWriters)
+//@   loop 1 invariant dwOpened(domainWriters, *cfg.AutoIndex) && vwOpened(virtualWriters)
+//@   # pass 1 and pass 2
+//@   loop 2 invariant domainWriters != nil && (*cfg.AutoIndex ==> keyToIdx != nil)
+//@   loop 2 invariant vwOpened(virtualWriters)
+//@   loop 2 invariant dwOpened(domainWriters, *cfg.AutoIndex)
+//@   loop 3 invariant domainWriters != nil && (*cfg.AutoIndex ==> keyToIdx != nil)
+//@   loop 3 invariant vwOpened(virtualWriters)
+//@   loop 3 invariant dwOpened(domainWriters, *cfg.AutoIndex)
+//@   loop 4 invariant dwOpened(domainWriters, *cfg.AutoIndex) && vwOpened(virtualWriters)
+//@ # every writer in the two maps was opened (no nil entry), index-group writers have their
+//@ # per-channel map, and with auto-indexing a group that writes its index has its authority map
+//@ spec func dwOpened(dw map[ChannelKey]*idxWriter, auto bool) bool =
+//@   forall k ChannelKey :: __in(dw, k) ==> dw[k] != nil && dw[k].internal != nil && (auto && dw[k].writingToIdx ==> dw[k].dataAuth != nil)
+//@ spec func vwOpened(vw map[ChannelKey]*virtual.Writer) bool =
+//@   forall k ChannelKey :: __in(vw, k) ==> vw[k] != nil
+//@ import virtual "github.com/synnaxlabs/cesium/internal/virtual"
